@@ -14,8 +14,8 @@ RULE = ("sequences of 2-6 complete top-level statements drawn with repetition fr
         "plus corpus statements; each part must parse alone; the whole must parse and its body must equal the parts' bodies with shifted line numbers "
         "(full dumps with positions); every ordered pair of pool items is covered in the thorough tier; distinct non-trivial = distinct sequences whose "
         "parts all parse alone")
-ASSUMPTIONS = ["which trailing comment/blank lines belong to a with-macro block is pinned by the repository's tests ('up to the next statement') and is "
-               "kept out of the relation: a part that follows a with-macro block never starts with a blank or comment line"]
+ASSUMPTIONS = ["trailing blank lines after a with-macro block belong to the block (pinned by the repository's tests) and are kept out of the relation: a part "
+               "that follows a with-macro block never starts with a blank line (a comment line there is fine: it is outside the block)"]
 
 
 def worker_init():
@@ -23,7 +23,7 @@ def worker_init():
 
 
 def nlines(s):
-    return len(io.StringIO(s).readlines())
+    return len(io.StringIO(s, newline=None).readlines())
 
 
 _cache = {}
@@ -104,8 +104,9 @@ def concat_items():
 
 
 def starts_blank_or_comment(s):
+    """only blank lines are pinned to the block; a comment line at the statement's own indentation after the block is outside it"""
     first = s.split("\n", 1)[0].strip()
-    return first == "" or first.startswith("#")
+    return first == ""
 
 
 def ok_sequence(parts):
